@@ -512,6 +512,33 @@ fn render_data(rng: &mut Rng) -> J {
 pub fn run_render(tier: &str, seed: u64, out: &mut Out) {
     let mut rng = Rng::new(seed ^ 0x4e4d);
     let n = if tier == "thorough" { 4000 } else { 600 };
+    // hand-written shapes with chosen data: a template reference whose name evaluates to the empty string, to an unknown
+    // name, to undefined / null (nothing is rendered: the file's own content is registered under the name ""), a `data-`
+    // only <slot>
+    let hand: Vec<(&str, Vec<serde_json::Value>)> = vec![
+        ("<template name=\"t1\">T1 {{ x }}</template><template is=\"{{ s }}\" data=\"{{ x: a }}\"/><view>{{ a }}</view><template is=\"{{ b ? '' : 't1' }}\"/>",
+         vec![json!({"$o": {"s": "", "a": 1, "b": true}}), json!({"$o": {"s": "t1", "a": 2, "b": false}}),
+              json!({"$o": {"s": "nope", "a": 3, "b": 0}}), json!({"$o": {"a": 4, "b": ""}})]),
+        ("<c><slot name=\"n\" data-k=\"{{ a }}\"/><slot data:j=\"x\"/><slot name=\"{{ s }}\"/></c>",
+         vec![json!({"$o": {"s": "", "a": 1}}), json!({"$o": {"s": "q", "a": "v"}})]),
+    ];
+    for (hi, (src, datas)) in hand.iter().enumerate() {
+        let src = src.to_string();
+        let mut tg = TmplGroup::new();
+        let diags = { crate::util::note_input(&*src); tg.add_tmpl("p", &src) };
+        let max_level = diags.iter().map(|d| d.kind.level() as u8).max().unwrap_or(0);
+        let t = tg.get_tree("p").unwrap();
+        let s = crate::ast::Src::new(&src);
+        let dump = crate::ast::template(t, &s);
+        let bundle = tg.get_tmpl_gen_object_groups().unwrap_or_default();
+        let slot_values = json!({"$o": {"sv": "SV"}});
+        for d in datas.iter() {
+            let job = json!({"kind": "render", "id": 100000 + hi, "src": src, "max_level": max_level, "bundle": bundle, "features": ["hand"],
+                             "data": d, "slotValues": slot_values,
+                             "model_cmd": format!("render\t{}\t{}\t{}", dump, val_sexp(d), val_sexp(&slot_values))});
+            out.raw(&job.to_string());
+        }
+    }
     for i in 0..n {
         let cfg = TmplCfg {
             max_depth: 1 + (i % 3),
